@@ -12,6 +12,7 @@ use crate::common::*;
 use crate::runner::*;
 use crate::tables::{BOPS, QUALS};
 
+pub const HEADER_V: &str = "From Coq Require Import List ZArith Bool NArith Floats.SpecFloat.\nFrom RB Require Import Base.Util Generated.Tables Val.Variant Val.Arith2.\nImport ListNotations.\n";
 pub const HEADER: &str = "From Coq Require Import List ZArith Bool NArith Floats.SpecFloat.\nFrom RB Require Import Base.Util Generated.Tables Val.Variant Lang.Ast Lang.Sem VM.Instr VM.Gen VM.Machine VM.Corr.\nImport ListNotations.\nLocal Open Scope nat_scope.\n";
 
 // ------------------------------------------------------------------ AST with positions
@@ -883,8 +884,105 @@ fn leg_name(n: u32) -> &'static str {
 pub fn run(args: &Args) {
     let mut rng = Rng::new(args.seed);
     let mut sum = Summary::new();
-    let mut w = CaseWriter::new(&args.out, "c01", HEADER, 60);
+    let mut w = CaseWriter::new(&args.out, "c01", HEADER, 80);
     let mut evaluations = 0usize;
+    // ---- value level: every binary operator of the VM and the two unary ones on boundary values,
+    //      against Arith2.binop / negate / unary_not
+    {
+        use std::cmp::Ordering;
+        let mut vw = CaseWriter::new(&args.out, "c01v", HEADER_V, 1500);
+        let mut vals = crate::c06::boundary_values();
+        for s in ["", "a", "ab", "B"] {
+            vals.push(Variant::VString(s.to_string()));
+        }
+        for _ in 0..(if args.thorough() { 200 } else { 30 }) {
+            vals.push(Variant::VInteger(rng.range(-32768, 32767) as i32));
+            vals.push(Variant::VLong(rng.range(-2147483648, 2147483647)));
+            vals.push(Variant::VDouble(rng.range(-4000, 4000) as f64 / 8.0));
+            vals.push(Variant::VSingle(rng.range(-4000, 4000) as f32 / 4.0));
+            vals.push(Variant::VDouble(rng.range(-1_000_000_000_000, 1_000_000_000_000) as f64 * 1024.0));
+        }
+        fn code_of(e: &rusty_variant::VariantError) -> i128 {
+            match e {
+                rusty_variant::VariantError::Overflow => 6,
+                rusty_variant::VariantError::TypeMismatch => 13,
+                rusty_variant::VariantError::DivisionByZero => 11,
+            }
+        }
+        let n_pairs = if args.thorough() { 40000 } else { 5000 };
+        for k in 0..n_pairs {
+            let a = rng.pick(&vals).clone();
+            let b = rng.pick(&vals).clone();
+            let (_, on) = crate::tables::BOPS[k % crate::tables::BOPS.len()];
+            let (a2, b2) = (a.clone(), b.clone());
+            let r = guard(move || -> Result<Variant, i128> {
+                use rusty_linter::core::CastVariant;
+                let cmp = |p: fn(Ordering) -> bool| a2.try_cmp(&b2).map(|o| Variant::from(p(o)));
+                // AND / OR: as the handlers of interpreter/handlers/logical.rs, both operands are cast to INTEGER first
+                let logical = |is_and: bool| -> Result<Variant, i128> {
+                    let x = a2.clone().cast(TypeQualifier::PercentInteger).map_err(|e| crate::c06::code_of_lint(&e))?;
+                    let y = b2.clone().cast(TypeQualifier::PercentInteger).map_err(|e| crate::c06::code_of_lint(&e))?;
+                    (if is_and { x.and(y) } else { x.or(y) }).map_err(|e| code_of(&e))
+                };
+                if on == "And" || on == "Or" {
+                    return logical(on == "And");
+                }
+                (match on {
+                    "Plus" => a2.clone().plus(b2.clone()),
+                    "Minus" => a2.clone().minus(b2.clone()),
+                    "Multiply" => a2.clone().multiply(b2.clone()),
+                    "Divide" => a2.clone().divide(b2.clone()),
+                    "Modulo" => a2.clone().modulo(b2.clone()),
+                    "Less" => cmp(|o| o == Ordering::Less),
+                    "LessOrEqual" => cmp(|o| o != Ordering::Greater),
+                    "Equal" => cmp(|o| o == Ordering::Equal),
+                    "GreaterOrEqual" => cmp(|o| o != Ordering::Less),
+                    "Greater" => cmp(|o| o == Ordering::Greater),
+                    "NotEqual" => cmp(|o| o != Ordering::Equal),
+                    other => panic!("unknown operator {}", other),
+                })
+                .map_err(|e| code_of(&e))
+            });
+            evaluations += 1;
+            let (code, res) = match &r {
+                Err(msg) => {
+                    sum.violation(ImplViolation { key: format!("binop-panic:{}", on), input: format!("{:?} {} {:?}", a, on, b), expected: "a value or an error".into(), observed: msg.clone() });
+                    continue;
+                }
+                Ok(Ok(x)) => (0, coq_variant(x)),
+                Ok(Err(e)) => (*e, "(VInteger 0%Z)".to_string()),
+            };
+            vw.push(Case {
+                agree: format!("vres_eqb (binop {} {} {}) {}%Z {}", on, coq_variant(&a), coq_variant(&b), code, res),
+                desc: format!("value {:?} {} {:?} = {:?}", a, on, b, r.as_ref().ok()),
+                model_expr: format!("binop {} {} {}", on, coq_variant(&a), coq_variant(&b)),
+            });
+            sum.count(&format!("value_{}", on));
+            sum.nontrivial(format!("v{:?}{}{:?}", a, on, b));
+        }
+        for a in &vals {
+            for (un, f) in [("negate", 0), ("unary_not", 1)] {
+                let a2 = a.clone();
+                let r = guard(move || if f == 0 { a2.negate() } else { a2.unary_not() });
+                evaluations += 1;
+                let (code, res) = match &r {
+                    Err(msg) => {
+                        sum.violation(ImplViolation { key: format!("unop-panic:{}", un), input: format!("{} {:?}", un, a), expected: "a value or an error".into(), observed: msg.clone() });
+                        continue;
+                    }
+                    Ok(Ok(x)) => (0, coq_variant(x)),
+                    Ok(Err(e)) => (code_of(e), "(VInteger 0%Z)".to_string()),
+                };
+                vw.push(Case {
+                    agree: format!("vres_eqb ({} {}) {}%Z {}", un, coq_variant(a), code, res),
+                    desc: format!("value {} {:?} = {:?}", un, a, r.as_ref().ok()),
+                    model_expr: format!("{} {}", un, coq_variant(a)),
+                });
+                sum.count(&format!("value_{}", un));
+            }
+        }
+        vw.flush();
+    }
     let n = if args.thorough() { 12000 } else { 1200 };
     let _ = leg_name(0);
     for k in 0..n {
@@ -931,15 +1029,24 @@ pub fn run(args: &Args) {
             _ => "ended_other_error",
         });
         if code.contains("IOther") {
+            // an instruction or label the model does not know: the generator leg fails, the
+            // semantic leg is still decided
             sum.count("unsupported_instruction");
-            continue;
         }
-        // the failing-input side: with an error, nothing after the failing statement may be printed/stored;
-        // the comparison with the reference semantics (Coq) is the oracle for that.
+        let so = r.stdout.iter().map(|b| b.to_string()).collect::<Vec<_>>().join("; ");
+        let progc = coq_program(&prog);
+        let gl = coq_globals(&r.globals);
+        let fuel = r.steps + 50;
+        let one_line = src.replace('\n', " | ");
         w.push(Case {
-            agree: format!("Nat.eqb (check_c01 {} {} {} {} {} [{}]%Z {} {}) 0", dims, coq_program(&prog), code, marks, obs, r.stdout.iter().map(|b| b.to_string()).collect::<Vec<_>>().join("; "), coq_globals(&r.globals), r.steps + 50),
-            desc: src.replace('\n', " | "),
-            model_expr: format!("check_c01 {} {} {} {} {} [{}]%Z {} {}", dims, coq_program(&prog), code, marks, obs, r.stdout.iter().map(|b| b.to_string()).collect::<Vec<_>>().join("; "), coq_globals(&r.globals), r.steps + 50),
+            agree: format!("Nat.eqb (check_sem {} {} {} [{}]%Z {} {}) 0", dims, progc, obs, so, gl, fuel),
+            desc: format!("sem {}", one_line),
+            model_expr: format!("check_sem {} {} {} [{}]%Z {} {}", dims, progc, obs, so, gl, fuel),
+        });
+        w.push(Case {
+            agree: format!("Nat.eqb (check_c01 {} {} {} {} {} [{}]%Z {} {}) 0", dims, progc, code, marks, obs, so, gl, fuel),
+            desc: format!("model {}", one_line),
+            model_expr: format!("check_legs {} {} {} {} {} [{}]%Z {} {}", dims, progc, code, marks, obs, so, gl, fuel),
         });
         *sum.histogram.entry("instructions_total".into()).or_insert(0) += n_instr as i128;
         if has_control(&prog) {
